@@ -86,7 +86,7 @@ def real_agent():
     return next(iter(app.target_agents.values()))
 
 
-def exact_one(agent, b, method: str, tau: float, rng: random.Random):
+def exact_one(agent, b, method: str, tau: float, rng: random.Random, patience: float = 20.0):
     """Replay one behaviour; returns (None | (signature, what, detail), max relative velocity error, steps)."""
     from resonaate.parallel.agent_propagation import PropagateRegistration, PropagateResult
     from resonaate.physics.time.stardate import ScenarioTime
@@ -103,19 +103,21 @@ def exact_one(agent, b, method: str, tau: float, rng: random.Random):
     for k, call in enumerate(b["hist"]):
         lb, ub = call["times"]
         # Scenario.stepForward: the active burn is handled (appended) again at every step (spec action Deliver)
-        if burn["ts"] > 0 and burn["ts"] <= ub and burn["te"] > lb:
+        if burn["kind"] != "none" and burn["ts"] <= ub and burn["te"] > lb:
             agent.appendPropagateEvent(emb.thrust_event(burn["kind"], a, burn["ts"] * tau, burn["te"] * tau,
                                                         agent.simulation_id))
         reg = PropagateRegistration(agent)
         try:
-            with guard(20.0):
+            with guard(patience):
                 sub = reg.generateSubmission()      # real prunePropagateEvents inside
                 new = sub.dynamics.propagate(sub.init_time, sub.final_time, sub.init_eci,
                                              station_keeping=sub.station_keeping,
                                              scheduled_events=sub.scheduled_events, error_flags=sub.error_flags)
         except Hang:
-            return ("exact-law:propagate-does-not-terminate", f"Celestial.propagate did not return within 20 s (step {k})",
-                    {"step": k}), worst, k
+            sig = "exact-law:burn-at-scenario-start-never-terminates" if burn["ts"] == 0 and k == 0 else \
+                "exact-law:propagate-does-not-terminate"
+            return (sig, f"Celestial.propagate did not return within {patience:g} s (step {k + 1}, {burn['kind']} burn "
+                    f"[{burn['ts']},{burn['te']}) ticks of {tau} s)", {"step": k}), worst, k
         reg.processResults(PropagateResult(agent_id=sub.agent_id, final_time=sub.final_time, prev_state=sub.init_eci,
                                            final_eci=new))
         want_p2, want_v = call["outs"][0][0]
@@ -145,31 +147,37 @@ def exact_one(agent, b, method: str, tau: float, rng: random.Random):
     return None, worst, len(b["hist"])
 
 
-def exact_replay(ctx: Ctx, behs, rng: random.Random) -> dict:
+def exact_replay(ctx: Ctx, behs, rng: random.Random, patience: float = 20.0, stop_at_first: bool = False) -> dict:
     agent = real_agent()
     stats = {"behaviours": 0, "steps": 0, "violations": 0, "max_rel_err": 0.0, "by_signature": {}}
+    hangs = 0
     for i, b in enumerate(behs):
         methods = ("RK45", "DOP853") if not ctx.quick else (("RK45", "DOP853")[i % 2],)
+        if (stop_at_first and stats["violations"]) or hangs >= 3:   # every further hang costs the full patience
+            stats["aborted_early"] = True
+            break
         for method in methods:
             tau = TAUS[(i // 2) % len(TAUS)]
             sub_seed = rng.getrandbits(32)
             try:
-                bad, worst, steps = exact_one(agent, b, method, tau, random.Random(sub_seed))
+                bad, worst, steps = exact_one(agent, b, method, tau, random.Random(sub_seed), patience)
             except tlc.MachineryError:
                 raise
             except Exception as ex:  # noqa: BLE001  - the real code raised on a legal input
                 bad, worst, steps = (f"exact-law:exception:{type(ex).__name__}", f"{type(ex).__name__}: {ex}", {}), 0.0, 0
+            K.flush_events()
             stats["behaviours"] += 1
             stats["steps"] += steps
             stats["max_rel_err"] = max(stats["max_rel_err"], worst if bad is None else 0.0)
             key = ("exact", tuple(b["law"]), b["dt"], b["nsteps"], b["burn"]["ts"], b["burn"]["te"], b["burn"]["kind"], method)
-            ctx.case(key, nontrivial=b["burn"]["ts"] > 0,
+            ctx.case(key, nontrivial=b["burn"]["kind"] != "none",
                      sample={"part": "exact", "law": b["law"], "dt": b["dt"], "nsteps": b["nsteps"], "burn": b["burn"],
                              "method": method, "tau_s": tau} if i % 701 == 3 else None)
             if bad:
                 sig, what, detail = bad
                 stats["violations"] += 1
                 stats["by_signature"][sig] = stats["by_signature"].get(sig, 0) + 1
+                hangs += "terminate" in sig
                 ctx.violation(sig, "(a) exact law through the real propagate/ScheduledFiniteThrust/prune: " + what,
                               {"part": "exact", "behaviour": b, "method": method, "tau_s": tau, "seed": sub_seed, **detail})
     ctx.traces_validated += stats["behaviours"]
@@ -295,6 +303,7 @@ def scenario_one(ctx: Ctx, picks, dt: int, nsteps: int, rng: random.Random, stat
             ctx.violation("scenario:step-does-not-terminate", f"(b) Scenario.stepForward did not return within 120 s at step {k}",
                           {"part": "scenario", **base, "events": evs, "targets": targets})
             stats["violations"] += 1
+            stats["by_signature"]["scenario:step-does-not-terminate"] = stats["by_signature"].get("scenario:step-does-not-terminate", 0) + 1
             return
         t_now = (k + 1) * step_s
         for tid, ev in evs.items():
@@ -344,13 +353,13 @@ def primary_replay(ctx: Ctx, behs, rng: random.Random) -> dict:
              "by_signature": {}, "by_class": {}, "categories": {}}
     groups: dict = {}
     for b in behs:
-        if b["burn"]["ts"] > 0:
+        if b["burn"]["kind"] != "none":
             groups.setdefault((b["dt"], b["nsteps"]), {}).setdefault(category(b), []).append(b)
     keys = sorted(groups)
     for g in groups.values():
         for lst in g.values():
             rng.shuffle(lst)
-    n_scen = 36 if ctx.quick else 600
+    n_scen = 30 if ctx.quick else 600
     cat_cursor: dict = {}
 
     def pick(key):
@@ -363,6 +372,9 @@ def primary_replay(ctx: Ctx, behs, rng: random.Random) -> dict:
 
     for i in range(n_scen):
         key = keys[i % len(keys)]
+        if stats["by_signature"].get("scenario:step-does-not-terminate", 0) >= 2:
+            stats["aborted_after_hangs"] = True
+            return stats
         scenario_one(ctx, [pick(key) for _ in range(3)], key[0], key[1], rng, stats)
     # bit-exact boundary stratum: short burns that END on a step boundary and start inside the same step (with a
     # 675 s step only high orbits cover such a burn with one integrator step, hence two GEO targets here)
@@ -389,8 +401,8 @@ def run(ctx: Ctx):
                 "maneuvers, plus a bit-exact stratum (675 s steps from 00:00/12:00, burn ending on the boundary). Non-trivial = a "
                 "burn is present; distinct by (part, law or orbit class, Dt, NSteps, ts, te, kind, ...)")
     ctx.assumptions = [
-        "burns start strictly after scenario time 0 (a thrust starting exactly at scenario time 0 makes Celestial.propagate loop "
-        "forever - same mechanism as D3, reported, not explored here)",
+        "burns starting exactly at scenario time 0 are explored only on the exact law, with 5 s of patience per call, and the stratum "
+        "stops at its first failure (on the unchanged tree Celestial.propagate never returns for them - the mechanism of D3's hang)",
         "(a) exact law: position/velocity must equal the spec's integers within 1e-9 relative",
         f"(b) tolerance {TOL_R} km + {TOL_V} km/s * elapsed / {TOL_V} km/s instead of the nominal 1e-7 / 1e-10: after a terminal "
         "event the real driver restarts from solve_ivp's dense-output state, whose error at rtol 1e-10 was measured up to "
@@ -411,6 +423,12 @@ def run(ctx: Ctx):
     ctx.extra["action_coverage"] = cov
     ctx.extra["behaviours"] = len(behs)
     ctx.extra["exact"] = exact_replay(ctx, behs, rng)
+    # burns that start at the scenario start itself (tick 0): a handful, short patience - on a tree where the restart
+    # loop cannot leave scenario time 0 every one of them would hang
+    _, zero = K.run_spec(ctx, "zero", "Kinematics.tla Mode=steps, burns starting at scenario time 0", invs=INV15, Horizon=6,
+                         StepLens="{2, 3}", MaxSteps=2, Laws="LawsOne", Kinds="KindsBurn", FirstStart=0, OnlyFirstStart="TRUE",
+                         WithNoBurn="FALSE")
+    ctx.extra["exact_burn_at_scenario_start"] = exact_replay(ctx, zero, rng, patience=5.0, stop_at_first=True)
     ctx.extra["primary"] = primary_replay(ctx, [b for b in behs if b["law"] == behs[0]["law"]], rng)
 
 
